@@ -19,6 +19,10 @@ def cases(draw, max_steps=14):
     scn = draw(sim.scenario(max_steps=max_steps, reverse=True, layouts=("sparse",), min_gap=1, numrec=(0, 0, 2),
                             lonlat=(False,), dtypes=("f8",), ref_kinds=("none", "before", "after")))
     scn["forcing"]["vel"]["kind"] = draw(st.sampled_from(["shear", "noise", "shear", "const"]))
+    # forcing frames that do not fall on model steps (e.g. half-hour stamps with an hourly step): the mirror
+    # relation holds whatever convention assigns such a frame to the time axis
+    if draw(st.sampled_from([False, False, True])):
+        scn["forcing"]["offgrid"] = draw(st.lists(st.sampled_from([0, 1, 20, 30, 59]), min_size=1, max_size=4))
     return scn
 
 
@@ -38,6 +42,8 @@ def oracle(scn) -> core.CaseResult:
     res.cls("continuous" if scn["release"]["continuous"] else "discrete")
     res.cls(scn["tracker"]["advection"])
     res.cls("multi_file" if len(scn["forcing"]["partition"]) > 1 else "single_file")
+    if any(scn["forcing"].get("offgrid") or []):
+        res.cls("frames_between_model_steps")
     with e2e.workdir() as da, e2e.workdir() as db:
         ra, ma = sim.run(da, scn, record_output=False)
         rb, mb = sim.run(db, fwd, record_output=False, vel_sign=-1.0)
@@ -101,7 +107,8 @@ def run(ctx):
         stats.merge(s)
     return stats, dict(
         rule=("generated reversed simulations (several forcing files, irregular frame gaps incl. 1 step, release tables "
-              "with several times, discrete/continuous, EF/RK2/RK4, scripted kills, scalar forcing) paired with the "
+              "with several times, discrete/continuous, EF/RK2/RK4, scripted kills, scalar forcing; in a third of the cases "
+              "forcing frames that fall between model steps) paired with the "
               "forward run on the mirrored time axis with sign-flipped velocity frames and mirrored release times; "
               "record k of both runs must hold the same pids at the same positions (1e-9), reversed record times must "
               "read S - k*period*dt; non-trivial = >= 2 release times, a frame hand-over inside the run, non-steady field"),
